@@ -45,6 +45,8 @@ def run(ctx: Ctx):
     res.rule("HOMOGENEITY", "dimensional analysis: every value returned by cp_to_tensor / cp_to_unfolded / cp_to_vec / cp_norm, tucker_to_tensor / _unfolded / _vec, tt_to_tensor / tt_to_vec, tr_to_tensor and parafac2_to_slice has the homogeneity degree of the defining contraction (degree 1 in the weights or core, degree 1 in every factor; mask degree 1 when given), for weights present and absent, on every return path", floor=20)
     ctx.guarded(run_homogeneity, ctx, "HOMOGENEITY", ("tensorly.cp_tensor", "tensorly.tucker_tensor", "tensorly.tt_tensor", "tensorly.tr_tensor", "tensorly.parafac2_tensor"))
     res.rule("REJECT-TWO-SIDED", "every rejecting test of a validator (an `if` whose body raises) is either an (in)equality / count test, or compares a quantity that is non-negative by construction (abs / norm / even power, possibly reduced by max / sum) with its tolerance: a signed deviation compared one-sidedly accepts every factor set that deviates in the other direction", floor=20)
+    res.rule("NORM-DELEGATES", "every `norm` method of a factorised-tensor wrapper (and of the common base class) returns either the family's factor-based norm function applied to the wrapper itself (degree-checked by HOMOGENEITY) or the backend norm of the wrapper's own dense reconstruction: the norm of a *component* (core, weights, one factor) is not the norm of the represented tensor", floor=2)
+    ctx.guarded(norm_delegates, ctx)
     for modname, (cls, validator, dense, prefix) in FAMILIES.items():
         mod = repo.module(modname)
         ci = repo.cls(f"{modname}.{cls}")
@@ -304,3 +306,37 @@ def views(ctx, mod, ci, dense_fs, prefix):
         res.instance("VIEW-DELEGATES", m.qname, sample={"return": src(r), "ok": not problems})
         for p in problems:
             ctx.finding("VIEW-DELEGATES", m, r, f"{ci.name}.{mname}: {p}", construct=f"{src(r)} :: {p[:60]}")
+
+
+def norm_delegates(ctx):
+    repo, res = ctx.repo, ctx.res
+    classes = [repo.cls("tensorly._factorized_tensor.FactorizedTensor")] + [repo.cls(f"{m}.{c}") for m, (c, _, _, _) in FAMILIES.items()]
+    prefixes = {f"{m}.{c}": p for m, (c, _, _, p) in FAMILIES.items()}
+    n = 0
+    for ci in classes:
+        m = ci.methods.get("norm")
+        if m is None:
+            continue
+        n += 1
+        rets = [r for r in own_scope_nodes(m.node) if isinstance(r, ast.Return) and r.value is not None]
+        ok = bool(rets)
+        why = ""
+        for r in rets:
+            v = r.value
+            good = False
+            if isinstance(v, ast.Call):
+                nm = call_name(v)
+                # <family>_norm(self)
+                if nm == f"{prefixes.get(ci.qname, '?')}_norm" and v.args and is_name(v.args[0], m.self_name):
+                    good = True
+                # norm(self.to_tensor())
+                if nm == "norm" and v.args and isinstance(v.args[0], ast.Call) and isinstance(v.args[0].func, ast.Attribute) and v.args[0].func.attr == "to_tensor" and is_name(v.args[0].func.value, m.self_name):
+                    good = True
+            if not good:
+                ok = False
+                why = src(v)[:80]
+        res.instance("NORM-DELEGATES", f"{ci.qname}.norm", sample={"returns": [src(r.value)[:60] for r in rets], "ok": ok})
+        if not ok:
+            ctx.finding("NORM-DELEGATES", m, m.node, f"`{ci.name}.norm` returns `{why}`: that is not the family's factor-based norm of the wrapper nor the norm of its dense reconstruction. The norm of one component equals the norm of the represented tensor only for special factors (e.g. orthonormal ones), which the wrapper does not guarantee", construct=f"{ci.name}.norm returns {why}")
+    if n == 0:
+        raise AnalysisError("NORM-DELEGATES: no `norm` method found on the wrappers or their base class")
